@@ -20,7 +20,7 @@ TRUSTED = [
 ]
 ASSUMPTIONS = []
 RULE = 'correspondence: compiled Numba kernels vs their traces at random points and wavenumbers; oracle: props/c03_oracle.py'
-LEVEL_TEXT = "Lean 4 theorems about the canonical kernels (= traced kernels): translation invariance, dependence on (r, d.n_y, d.n_x) only, invariance of these under every matrix with Q'Q = 1, homogeneity under scaling; the Galerkin sum is independent of the element order."
+LEVEL_TEXT = "Lean 4 theorems about the canonical kernels (= traced kernels): translation invariance, dependence on (r, d.n_y, d.n_x) only, invariance of these under every matrix with Q'Q = 1, cross products (normals, surface curls, n x rwg) co-rotate under rotations and flip under reflections, homogeneity under scaling; the Galerkin sum is independent of the element order."
 LEVEL_NOTE = 'partial: geometric-factor equivariance and singular-quadrature statements oracle-only. Trusted: Lean kernel, kernel tracer.'
 TECHNIQUE = 'Lean 4 proof (ring / linear_combination on traced kernels) + numerical oracle'
 
